@@ -479,3 +479,7 @@ mod tests {
         );
     }
 }
+
+#[cfg(feature = "pendulum_project_ntpd_rs_verif")]
+#[path = "/verif/hooks/ntpd/daemon_config_server.rs"]
+pub mod vh_daemon_config_server;
